@@ -8,6 +8,7 @@ import (
 	"os"
 	"sort"
 	"strings"
+	"sync"
 	"time"
 
 	"golang.org/x/tools/go/ssa"
@@ -25,6 +26,8 @@ type HarnessOpts struct {
 	Solvers    []string
 	ExpectFail bool // selftest harness: must be violated
 	MaxConc    int
+	Use        []string
+	Workers    int
 }
 
 type Stats struct {
@@ -84,27 +87,30 @@ type HarnessRun struct {
 	maxAlloc    int
 	maxSymIndex int
 
-	work  [][]int
+	q     *workQueue
 	stats Stats
 
-	obls     map[string]*OblStat
-	findings []*Finding
-	incon    []string // inconclusive reasons
-	assumes  map[string]bool
-	stubs    map[string]bool
-	funcs    map[string]bool
-	reached  map[string]bool // labels of zzReach witnesses reached on a feasible path
-	seenFind map[string]bool
-	inputs   []string
+	obls      map[string]*OblStat
+	findings  []*Finding
+	incon     []string // inconclusive reasons
+	assumes   map[string]bool
+	stubs     map[string]bool
+	funcs     map[string]bool
+	reached   map[string]bool // labels of zzReach witnesses reached on a feasible path
+	seenFind  map[string]bool
+	inputs    []string
+	snap      *Exec
+	stubFns   map[string]*ssa.Function
+	snapTried bool
 	completed int
-	samples  []string
-	log      []string
+	samples   []string
+	log       []string
 }
 
 func newHarnessRun(name string, fn *ssa.Function, prog *ssa.Program, opts HarnessOpts) *HarnessRun {
 	r := &HarnessRun{Name: name, fn: fn, prog: prog, opts: opts, solvers: map[string]*Solver{},
 		obls: map[string]*OblStat{}, assumes: map[string]bool{}, stubs: map[string]bool{}, funcs: map[string]bool{},
-		reached: map[string]bool{}, seenFind: map[string]bool{}}
+		reached: map[string]bool{}, seenFind: map[string]bool{}, stubFns: map[string]*ssa.Function{}}
 	r.stats.SolverSecs = map[string]float64{}
 	r.maxSteps = opts.MaxSteps
 	if r.maxSteps == 0 {
@@ -319,7 +325,7 @@ func (r *HarnessRun) branch(e *Exec, c *Term) bool {
 	if feasT {
 		if feasF {
 			alt := append(append([]int{}, r.decisions...), 1)
-			r.work = append(r.work, alt)
+			r.q.push(alt)
 		}
 		r.decisions = append(r.decisions, 0)
 		r.pos++
@@ -351,7 +357,7 @@ func (r *HarnessRun) choose(e *Exec, vals []int) int {
 	}
 	for _, v := range vals[1:] {
 		alt := append(append([]int{}, r.decisions...), v)
-		r.work = append(r.work, alt)
+		r.q.push(alt)
 	}
 	r.decisions = append(r.decisions, vals[0])
 	r.pos++
@@ -399,7 +405,7 @@ func (r *HarnessRun) concretize(e *Exec, t *Term, what string) int {
 	sort.Ints(vals)
 	for _, v := range vals[1:] {
 		alt := append(append([]int{}, r.decisions...), v)
-		r.work = append(r.work, alt)
+		r.q.push(alt)
 	}
 	r.decisions = append(r.decisions, vals[0])
 	r.pos++
@@ -514,22 +520,160 @@ func (r *HarnessRun) check(e *Exec, kind, label string, cond *Term) {
 }
 
 // runAll explores all paths.
-func (r *HarnessRun) runAll() {
-	r.b = NewBuilder()
-	r.work = [][]int{{}}
-	t0 := time.Now()
-	for len(r.work) > 0 {
-		if r.stats.Paths >= r.opts.MaxPaths {
-			r.incon = append(r.incon, fmt.Sprintf("path limit %d reached with %d prefixes pending", r.opts.MaxPaths, len(r.work)))
-			break
+type workQueue struct {
+	mu      sync.Mutex
+	cond    *sync.Cond
+	items   [][]int
+	active  int
+	paths   int
+	max     int
+	stopped bool
+}
+
+func newWorkQueue(max int) *workQueue {
+	q := &workQueue{max: max, items: [][]int{{}}}
+	q.cond = sync.NewCond(&q.mu)
+	return q
+}
+
+func (q *workQueue) push(p []int) {
+	q.mu.Lock()
+	q.items = append(q.items, p)
+	q.mu.Unlock()
+	q.cond.Signal()
+}
+
+// pop blocks until an item is available or all workers are idle with an empty queue.
+func (q *workQueue) pop() ([]int, bool) {
+	q.mu.Lock()
+	defer q.mu.Unlock()
+	for {
+		if q.stopped {
+			return nil, false
 		}
-		prefix := r.work[len(r.work)-1]
-		r.work = r.work[:len(r.work)-1]
-		r.runPath(prefix)
-		r.stats.Paths++
+		if len(q.items) > 0 {
+			if q.paths >= q.max {
+				q.stopped = true
+				q.cond.Broadcast()
+				return nil, false
+			}
+			p := q.items[len(q.items)-1]
+			q.items = q.items[:len(q.items)-1]
+			q.active++
+			q.paths++
+			return p, true
+		}
+		if q.active == 0 {
+			q.cond.Broadcast()
+			return nil, false
+		}
+		q.cond.Wait()
 	}
-	_ = t0
-	r.closeSolvers()
+}
+
+func (q *workQueue) done() {
+	q.mu.Lock()
+	q.active--
+	q.mu.Unlock()
+	q.cond.Broadcast()
+}
+
+// runAll explores all paths with `workers` shards sharing one work queue.
+func (r *HarnessRun) runAll(workers int) {
+	q := newWorkQueue(r.opts.MaxPaths)
+	shards := []*HarnessRun{r}
+	for i := 1; i < workers; i++ {
+		sh := newHarnessRun(r.Name, r.fn, r.prog, r.opts)
+		sh.stubFns = r.stubFns
+		shards = append(shards, sh)
+	}
+	var wg sync.WaitGroup
+	for _, s := range shards {
+		s.q = q
+		s.b = NewBuilder()
+		wg.Add(1)
+		go func(s *HarnessRun) {
+			defer wg.Done()
+			defer s.closeSolvers()
+			for {
+				prefix, ok := q.pop()
+				if !ok {
+					return
+				}
+				func() {
+					defer q.done()
+					defer func() {
+						if rec := recover(); rec != nil {
+							s.incon = append(s.incon, fmt.Sprintf("executor crashed: %v", rec))
+						}
+					}()
+					s.runPath(prefix)
+					s.stats.Paths++
+				}()
+			}
+		}(s)
+	}
+	wg.Wait()
+	if q.stopped {
+		r.incon = append(r.incon, fmt.Sprintf("path limit %d reached with %d prefixes pending", r.opts.MaxPaths, len(q.items)))
+	}
+	// merge shards into r
+	for _, s := range shards[1:] {
+		r.stats.Paths += s.stats.Paths
+		r.stats.Steps += s.stats.Steps
+		r.stats.Merges += s.stats.Merges
+		r.stats.Queries += s.stats.Queries
+		r.stats.Unsat += s.stats.Unsat
+		r.stats.Sat += s.stats.Sat
+		r.stats.Unknown += s.stats.Unknown
+		r.stats.Infeasible += s.stats.Infeasible
+		r.stats.Concretized += s.stats.Concretized
+		if s.stats.TermNodes > r.stats.TermNodes {
+			r.stats.TermNodes = s.stats.TermNodes
+		}
+		if s.stats.MaxQueryS > r.stats.MaxQueryS {
+			r.stats.MaxQueryS = s.stats.MaxQueryS
+		}
+		for k, v := range s.stats.SolverSecs {
+			r.stats.SolverSecs[k] += v
+		}
+		for k, o := range s.obls {
+			if t, ok := r.obls[k]; ok {
+				t.Checked += o.Checked
+				t.Unsat += o.Unsat
+				t.Sat += o.Sat
+				t.Unk += o.Unk
+				if t.Detail == "" {
+					t.Detail = o.Detail
+				}
+			} else {
+				r.obls[k] = o
+			}
+		}
+		for _, f := range s.findings {
+			key := f.Kind + "|" + f.Label + "|" + f.Pos
+			if !r.seenFind[key] {
+				r.seenFind[key] = true
+				r.findings = append(r.findings, f)
+			}
+		}
+		r.incon = append(r.incon, s.incon...)
+		for k := range s.assumes {
+			r.assumes[k] = true
+		}
+		for k := range s.stubs {
+			r.stubs[k] = true
+		}
+		for k := range s.funcs {
+			r.funcs[k] = true
+		}
+		for k := range s.reached {
+			r.reached[k] = true
+		}
+		r.inputs = append(r.inputs, s.inputs...)
+		r.completed += s.completed
+		r.log = append(r.log, s.log...)
+	}
 }
 
 func (r *HarnessRun) runPath(prefix []int) {
@@ -541,6 +685,24 @@ func (r *HarnessRun) runPath(prefix []int) {
 	r.lens = map[string]int{}
 	r.b.fresh = 0
 	e := &Exec{b: r.b, prog: r.prog, run: r, globals: map[*ssa.Global]*Cell{}, initDone: map[*ssa.Package]bool{}}
+	if r.snap != nil {
+		// start from a clone of the post-init global state
+		cl := &cloner{cells: map[*Cell]*Cell{}, maps: map[*MapV]*MapV{}}
+		for g, c := range r.snap.globals {
+			e.globals[g] = cl.cell(c)
+		}
+		for p := range r.snap.initDone {
+			e.initDone[p] = true
+		}
+		e.cellN = r.snap.cellN
+		e.opaqueN = r.snap.opaqueN
+	}
+	defer func() {
+		if r.snap == nil && !r.snapTried && len(e.initOrder) > 0 {
+			r.snapTried = true
+			r.makeSnapshot(e.initOrder)
+		}
+	}()
 	defer func() {
 		r.stats.Steps += e.steps
 		if rec := recover(); rec != nil {
@@ -704,4 +866,28 @@ func (r *HarnessRun) concretise(nc *Term, res SolveResult) SolveResult {
 	r.note("abstract counterexample (over free partial products) could not be concretised within budget")
 	res.Detail = "abstract"
 	return res
+}
+
+// makeSnapshot runs the package initialisers seen on the first path in a pristine executor
+// and keeps the resulting globals; later paths start from a deep copy.
+func (r *HarnessRun) makeSnapshot(order []*ssa.Package) {
+	e := &Exec{b: r.b, prog: r.prog, run: r, globals: map[*ssa.Global]*Cell{}, initDone: map[*ssa.Package]bool{}}
+	ok := true
+	func() {
+		defer func() {
+			if rec := recover(); rec != nil {
+				if _, is := rec.(*pathEnd); is {
+					ok = false
+					return
+				}
+				panic(rec)
+			}
+		}()
+		for _, p := range order {
+			e.runInit(p)
+		}
+	}()
+	if ok {
+		r.snap = e
+	}
 }
